@@ -16,7 +16,7 @@ HARNESS_I = ["vcr/issuer/zz_verif_c11i_test.go"]
 HARNESSES = [(PKG, HARNESS, "c11"), (PKG_V, HARNESS_V, "c11v"), (PKG_A, HARNESS_A, "c11a"), (PKG_I, HARNESS_I, "c11i")]
 
 REQUIRED = ["entries_injective", "einv_fresh", "bit_set_get", "bit_total", "served_list_signed_and_fresh", "list_signed_in_same_transaction",
-            "sign_failure_is_atomic", "fact_revoke_credential_statements", "set_monotone", "served_bit_never_cleared", "revoke_idempotent", "revoked_forever_network", "revocation_before_credential",
+            "sign_failure_is_atomic", "fact_update_upserts_all_columns", "fact_revoke_credential_statements", "set_monotone", "served_bit_never_cleared", "revoke_idempotent", "revoked_forever_network", "revocation_before_credential",
             "revocation_event_stored_or_retried", "redelivered_revocation_effective", "fact_ambassador_transient_errors",
             "first_revocation_entry_is_first_relevant", "issuer_revoke_status_list_effective", "issuer_network_revocation_accepted",
             "fact_issuer_ambassador_store_sites", "issuer_only", "stored_revocations_accepted", "network_revocation_is_by_issuer", "forged_revocations_rejected",
@@ -40,11 +40,13 @@ def scenario_ops(ops, i):
 def oracle(ctx, ops, impl, max_index, min_left_min):
     """direct property checks on the implementation's own output lines"""
     issued = {}        # (node, list, idx) -> line   (per scenario)
+    issued_lists = set()   # (node, list) lists that exist on a node (an entry was handed out)
     revoked = {}       # (node, list) -> set(idx) successfully revoked
     served = {}        # (node, list) -> last served bit set
     seen_revoked = set()  # (node, list, idx) a verify on that node answered revoked
     hosted_valid = {}     # foreign url -> union of the bits of every valid revocation list ever hosted there in this scenario
     hosted_now = {}       # foreign url -> what it serves now
+    last_dl = {}          # (verifier node, list name of the other node) -> revoked set of the hosting node at the last successful download
     cached_foreign = {}   # (node, url, idx) -> True while a valid list with that bit was downloaded and the host has not served another valid list since
     stats = Counter()
     bad = []
@@ -63,7 +65,8 @@ def oracle(ctx, ops, impl, max_index, min_left_min):
         if line.startswith("panic:") or " panic:" in line:
             report("C11:panic", f"operation {kind} panicked: {line[:200]}", i)
         if kind == "reset":
-            issued, revoked, served, seen_revoked, hosted_valid, hosted_now, cached_foreign = {}, {}, {}, set(), {}, {}, {}
+            issued_lists = set()
+            issued, revoked, served, seen_revoked, hosted_valid, hosted_now, cached_foreign, last_dl = {}, {}, {}, set(), {}, {}, {}, {}
         elif kind == "host":
             h = op["host"]
             hosted_now[h["url"]] = h
@@ -100,6 +103,7 @@ def oracle(ctx, ops, impl, max_index, min_left_min):
                 if key in issued:
                     report("C11:status-list-position-handed-out-twice", f"{key} returned by lines {issued[key]} and {i}", i)
                 issued[key] = i
+                issued_lists.add((node, m.group(1)))
                 if int(m.group(2)) > max_index:
                     report("C11:status-list-index-beyond-bitstring", f"{key}", i)
                 if m.group(3) != "true":
@@ -154,6 +158,13 @@ def oracle(ctx, ops, impl, max_index, min_left_min):
             c = op["cred"]
             rel = [s for s in c.get("statuses", []) if s["type"] == "StatusList2021Entry" and s["purpose"] == "revocation"] if not c.get("nostatus") else []
             v = line.split()[1]
+            if op.get("down"):
+                stats["verify-with-endpoint-down"] += 1
+            # successful downloads of another node's list in this verification: what the stored row must hold afterwards
+            for name in re.findall(r"n\d+/[^,\]]+", line.split("dl=")[1]):
+                host = int(name[1:name.index("/")])
+                if host != node and host not in (op.get("down") or []) and (host, name) in issued_lists:
+                    last_dl[(node, name)] = set(revoked.get((host, name), set()))
             if v == "revoked":
                 stats["verify-revoked"] += 1
             if "dl=[]" not in line:
@@ -191,6 +202,15 @@ def oracle(ctx, ops, impl, max_index, min_left_min):
                         report("C11:revocation-not-effective-on-issuing-node", f"{key} answered {v}", i)
                     if lst["node"] >= 0 and lst["node"] != node and name in line.split("dl=")[1] and int(s["idx"]) in revoked.get((lst["node"], name), set()):
                         report("C11:revocation-not-effective-after-refresh", f"{key} answered {v} although the list was downloaded", i)
+        elif kind == "record" and line.startswith("record purpose="):
+            lst = op["list"]
+            name = f"n{lst['node']}/{lst.get('issuer','')}/{lst.get('page',0)}"
+            if lst["node"] >= 0 and lst["node"] != node and (node, name) in last_dl:
+                stats["records-of-downloaded-lists"] += 1
+                bits = set(int(x) for x in re.search(r"bits=\[([0-9,]*)\]", line).group(1).split(",") if x)
+                if bits != last_dl[(node, name)]:
+                    report("C11:stored-list-differs-from-the-last-downloaded-list",
+                           f"node {node} holds {sorted(bits)} for {name}; the list it downloaded last had {sorted(last_dl[(node, name)])}", i)
         elif kind == "bits":
             stats["bitstring-cases"] += 1
             if "rt=ok" not in line:
